@@ -298,7 +298,7 @@ def _prog_inner(item):
     from miasmx.arch.ia32_arch import x86mnemo
     from miasmx.tools import emul_helper
     from miasmx.tools import modint as M
-    lines, nrb, seed = item['lines'], item['nrb'], item['seed']
+    lines, nrb, seed, rblimit = item['lines'], item['nrb'], item['seed'], item.get('rblimit', 5)
     cap, snaps = [], []
     try:
         instrs = [x86mnemo.dis(bytes.fromhex(l['hex'])) for l in lines]
@@ -327,15 +327,15 @@ def _prog_inner(item):
         combos = [(k, d, w) for k in keys for d in range(-3, 4) for w in (8, 16, 32)]
         random.Random(seed).shuffle(combos)
         rbs = []
-        t_end = time.time() + 40
+        t_end = time.time() + 8 * rblimit
         for k, d, w in combos[:nrb]:
             req = X.ExprOp('+', _fresh(k.arg, X), X.ExprInt(M.uint32(d & 0xffffffff)))
             rb = {'a': EJ.to_json(req, X), 'w': w}
-            signal.alarm(5)           # a read-back that raises or does not answer fails alone (clause C07.noanswer), not the program
+            signal.alarm(rblimit)     # a read-back that raises or does not answer fails alone (clause C07.noanswer), not the program
             try:
                 rb['r'] = EJ.to_json(m.eval_expr(X.ExprMem(req, w), {}), X)
             except irlib._TO:
-                rb['r'], rb['x'] = {'k': 'none'}, {'exc': 'Timeout', 'func': '', 'line': 'no result within 5 s'}
+                rb['r'], rb['x'] = {'k': 'none'}, {'exc': 'Timeout', 'func': '', 'line': 'no result within the time limit'}
             except Exception as x:
                 rb['r'], rb['x'] = {'k': 'none'}, irlib.exc_key(x)
             finally:
@@ -450,8 +450,8 @@ def prog_items(progs, nrb, seed):
 def prog_records(items, rnd, start_id, stats):
     outs = irlib.pmap(_run_prog, items, chunk=20)
     for i, o in enumerate(outs):          # a time-out counts only if it repeats with a three-fold limit on the parent process
-        if o['st'] == 'timeout':
-            outs[i] = _run_prog(items[i], 180)
+        if o['st'] == 'timeout' or any(rb.get('x', {}).get('exc') == 'Timeout' for rb in o.get('rbs', [])):
+            outs[i] = _run_prog(dict(items[i], rblimit=15), 180)
     # a program the emulator declines at instruction k is judged up to instruction k-1
     redo = [(i, dict(items[i], lines=items[i]['lines'][:o['at'] - 1])) for i, o in enumerate(outs) if o['st'] == 'declined' and o['at'] > 1]
     stats['declined_by_emulator (rep termination undecidable), judged up to the declined instruction'] += sum(1 for o in outs if o['st'] == 'declined')
